@@ -8,6 +8,8 @@ CONSTANTS
   Variant = "bound"
   FirstIp = "a1"
   FirstAgent = "u1"
+  XNames = {"xff"}
+  MaxExtra = 1
 INVARIANT TypeOK
 INVARIANT Conforms
 INVARIANT SessionBound
